@@ -342,7 +342,10 @@ mutual
 partial def pNode : P Node
   | "r" :: toks => do
     let (st, toks) ← pNat toks
-    pure (.respond st, toks)
+    if st ≥ 1000 then none else pure (.respond st, toks)
+  | "f" :: toks => do       -- the `error <st>` directive
+    let (st, toks) ← pNat toks
+    if st ≥ 1000 then none else pure (.respond (1000 + st), toks)
   | "h" :: toks => do
     let (p, toks) ← pNat toks
     if p > 6 then none else
@@ -375,7 +378,7 @@ def nodesValid : Nat → List Node → Bool
   | _, [] => true
   | d, n :: ns => nodeValid d n && nodesValid d ns
 def nodeValid : Nat → Node → Bool
-  | _, .respond st => 200 ≤ st && st ≤ 599
+  | _, .respond st => (200 ≤ st && st ≤ 599) || (1400 ≤ st && st ≤ 1599)
   | 0, .handle _ _ => false
   | d + 1, .handle _ body => body.length ≤ 4 && bodySorted body && distinctPaths body && nodesValid d body
 end
@@ -392,18 +395,68 @@ def groupsOfHandlers : List Handler → List String
   | _ :: hs => groupsOfHandlers hs
 end
 
+mutual
+def nodesNoErr : List Node → Bool
+  | [] => true
+  | n :: ns => nodeNoErr n && nodesNoErr ns
+def nodeNoErr : Node → Bool
+  | .respond st => st < 1000
+  | .handle _ body => nodesNoErr body
+end
+
 def handleHD (pF nodesF : String) : String :=
   match natTok pF, (match pNodes (nodesF.splitOn ",") with | some (ns, []) => some ns | _ => none) with
   | some p, some ns =>
-    if p ≥ 6 || ns.length > 4 || !bodySorted ns || !distinctPaths ns || !nodesValid 3 ns then "bad-op" else
+    if p ≥ 6 || ns.length > 4 || !bodySorted ns || !distinctPaths ns || !nodesValid 3 ns || !nodesNoErr ns then "bad-op" else
     let rs := adaptSite ns
     let res := serve rs false [] ⟨0, 0, p, 0, [], none, none, p, []⟩
     "hd s=" ++ (match res.status with | none => "-" | some c => toString c) ++
       " g=" ++ (if rs.isEmpty then "-" else ",".intercalate (groupsOfRoutes rs))
   | _, _ => "bad-op"
 
+/-! op `cf`: a whole site — nested `handle` blocks with `respond` / `error` leaves (leaf `f ST`),
+    followed by `handle_errors [<args>] { <nodes> }` blocks
+
+    cf <P> <nodes> <eblocks>      eblocks = B (A hexarg^A nodes)^B
+  answer  `cf err` | `cf s=<status|-> g=<groups of the primary routes>|<groups of the error routes>`   -/
+
+partial def pEBlock : P EBlock := fun toks => do
+  let (a, toks) ← pNat toks
+  let (args, toks) ← pMany (fun ts => match ts with
+      | t :: rest => (Hex.decode t).map (·, rest)
+      | [] => none) a toks
+  let (body, toks) ← pNodes toks
+  pure (⟨args, body⟩, toks)
+
+def noErrorLeaves : List Node → Bool
+  | [] => true
+  | .respond st :: rest => st < 1000 && noErrorLeaves rest
+  | _ :: rest => noErrorLeaves rest
+
+def siteBodyOk (ns : List Node) : Bool :=
+  ns.length ≤ 4 && bodySorted ns && distinctPaths ns && nodesValid 3 ns
+
+def groupsField (rs : List Route) : String :=
+  if rs.isEmpty then "-" else ",".intercalate (groupsOfRoutes rs)
+
+def handleCF (pF nodesF ebF : String) : String :=
+  match natTok pF, (match pNodes (nodesF.splitOn ",") with | some (ns, []) => some ns | _ => none),
+      (match (do let (b, toks) ← pNat (ebF.splitOn ","); pMany pEBlock b toks) with
+        | some (bs, []) => some bs | _ => none) with
+  | some p, some ns, some ebs =>
+    if p ≥ 6 || !siteBodyOk ns || ebs.length > 3 ||
+        !ebs.all (fun b => b.args.length ≤ 3 && siteBodyOk b.body) then "bad-op" else
+    match adaptFull ns ebs with
+    | none => "cf err"
+    | some (rs, errs) =>
+      let res := serve rs true errs ⟨0, 0, p, 0, [], none, none, p, []⟩
+      "cf s=" ++ (match res.status with | none => "-" | some c => toString c) ++
+        " g=" ++ groupsField rs ++ "|" ++ groupsField errs
+  | _, _, _ => "bad-op"
+
 def handle : List String → String
   | ["he", s, p, blocks] => handleHE s p blocks
+  | ["cf", p, nodes, ebs] => handleCF p nodes ebs
   | ["hd", p, nodes] => handleHD p nodes
   | [routes, errs, req] => handleCase routes errs req "0"
   | [routes, errs, req, named] => if named == "0" then "bad-op" else handleCase routes errs req named
